@@ -140,8 +140,8 @@ Proof.
     rewrite to_nat_zlen in IH.
     unfold mrr_bstep. destruct (fst (fst w) =? e) eqn:Ee; [|exact IH].
     destruct Hw1 as [G0 G1]. rewrite mrr_paste_eq by exact G0. rewrite <- IH at 2.
-    apply mrr_paste_n_other; unfold zlen in *; try lia.
-    destruct Hap as [Hap|[Hap|Hap]]; cbn [fst snd] in Hap; lia.
+    unfold mrr_wapart in Hap. cbn [fst snd] in Hap. unfold BS, zlen in *.
+    apply mrr_paste_n_other; lia.
 Qed.
 
 Print Assumptions mrr_block_len.
